@@ -366,7 +366,7 @@ class ProgBuilder:
         rng = self.rng
         r = rng.random()
         if r < allow_clear:
-            self.add({"op": "clear", "fl": self.fl()}); self.keys, self.addrs = [], []
+            self.add({"op": "clear", "fl": self.fl()}); self.keys, self.addrs, self.datas = [], [], []
         elif r < 0.45:
             self.add({"op": rng.choice(["remove", "delete"]), "fl": self.fl(), "key": kx(self.some_key())})
         elif r < 0.6:
